@@ -91,6 +91,7 @@ def run_property(prop, tier, seed, repo):
             o.meta['qualname'] = c.qualname
             o.meta['tier'] = 'proved'
             o.meta['contract'] = c
+            o.meta['fields'] = sorted(getattr(rep, 'fields', ()) or ())
         res.obligs.extend(rep.obligations)
     # extra obligation generators (ground instances, structural checks on the parse trees) and lemmas
     for gen in getattr(mod, 'GENERATORS', []):
@@ -100,7 +101,11 @@ def run_property(prop, tier, seed, repo):
                 o.meta.setdefault('function', gen.__name__)
                 res.obligs.append(o)
         except Exception as e:
-            res.errors.append((gen.__name__, '%r\n%s' % (e, traceback.format_exc()[-2000:])))
+            from .values import Unsupported as _Uns
+            if isinstance(e, _Uns):
+                res.unsupported.append((getattr(e, 'label', gen.__name__), str(e)))
+            else:
+                res.errors.append((gen.__name__, '%r\n%s' % (e, traceback.format_exc()[-2000:])))
     for gen in getattr(mod, 'LEMMAS', []):
         try:
             for o in gen(ctx):
@@ -143,7 +148,8 @@ def write_replay(prop, o, native, outdir):
         'file': o.meta.get('file'),
         'clause': o.meta.get('detail'),
         'solver': o.backend,
-        'solver_result': 'sat (negated obligation satisfiable: counter-model below)',
+        'solver_result': ('sat (negated obligation satisfiable: counter-model below)' if o.goal is not None or o.model else
+                          'not decided by the verifier (see clause); the failing input below was found by the bounded native stand-in'),
         'model': o.model,
         'native_replay': native,
         'how_to_replay': 'bin/check --replay %s' % path,
@@ -191,6 +197,16 @@ def main(argv):
             if t is None or t > 2000:
                 o.result = 'unknown'
                 o.reason = 'candidate counter-model only (baseline proof %s ms): undecided' % ('%.0f' % t if t is not None else 'unknown')
+    # the remaining candidates get a patient second proof attempt (load on the machine must not turn a provable obligation into an alarm)
+    cands = [o for o in res.obligs if o.result == 'sat' and (o.reason or '').startswith('CANDIDATE')]
+    if cands:
+        from .smt import reprove
+        proved = reprove(cands[:24])
+        for o in cands[24:]:
+            o.result = 'unknown'
+            o.reason = 'candidate counter-model only; second proof attempt not run (more than 24 candidates): undecided'
+        for o in proved:
+            print('NOTE property=%s obligation=%s proved on the second attempt (first attempt ran out of time)' % (prop, o.name))
     failed = [o for o in res.obligs if o.result == 'sat']
     unknown = [o for o in res.obligs if o.result == 'unknown']
     discharged = [o for o in res.obligs if o.result == 'unsat']
@@ -217,13 +233,42 @@ def main(argv):
     vio_groups = {}
     for o in violations:
         vio_groups.setdefault(o.name, []).append(o)
-    for name, os_ in vio_groups.items():
+    # A refuted obligation without a failing input replayed on the real code is a VIOLATION only if that same obligation was discharged
+    # on the unchanged tree (it is in the ledger) and the function touches no state that is new relative to the ledger.  A brand-new
+    # obligation, or a function that reads/writes an attribute no contract of this property has ever seen (new hidden state, for which
+    # no invariant exists), needs a confirmed native replay; otherwise the verdict is "undecided: needs a contract", never an alarm.
+    fields0 = set(base_ms.get('__fields__') or [])
+    have_ledger = any(not k.startswith('__') for k in base_ms)
+    needs_contract = []
+    for name, os_ in list(vio_groups.items()):
         o = os_[0]
         native = native_replay(res, o)
+        confirmed = bool(native and native.get('confirmed'))
+        new_ob = have_ledger and name not in base_ms
+        new_fields = sorted(set(o.meta.get('fields') or ()) - fields0) if fields0 else []
+        if not confirmed and (new_ob or new_fields):
+            why = ('obligation not in the ledger (never discharged on the unchanged tree)' if new_ob else
+                   'function touches state unknown to the contracts: %s' % ', '.join(new_fields[:4]))
+            needs_contract.append((name, why))
+            del vio_groups[name]
+            continue
         path = write_replay(prop, o, native, outdir)
-        tail = '' if (native and native.get('confirmed')) else ' no-failing-input-found'
+        tail = '' if confirmed else ' no-failing-input-found'
         print('VIOLATION property=%s replay=%s obligation=%s%s' % (prop, path, name, tail))
+    for name, why in needs_contract:
+        print('UNDECIDED property=%s obligation=%s refuted but no failing input was reproduced and %s: needs a contract' % (prop, name, why))
+    # A function that left the verifier's subset cannot be decided deductively.  The property module may supply a bounded native stand-in
+    # for it (same hook as the replay builders): a concrete failing input found on the real code is reported as a violation of the
+    # pseudo-obligation <function>/outside-subset.bounded-stand-in; anything else stays UNDECIDED.  Never counted as proved.
+    from .smt import Obligation as _Ob
     for lab, det in res.unsupported:
+        po = _Ob('%s/%s/outside-subset.bounded-stand-in' % (prop, lab), [], None, {'function': lab, 'detail': 'function outside the verifiable subset: %s' % det.splitlines()[0][:200]})
+        po.backend = 'none (bounded native stand-in)'
+        nat = native_replay(res, po)
+        if nat and nat.get('confirmed'):
+            path = write_replay(prop, po, nat, outdir)
+            vio_groups[po.name] = [po]
+            print('VIOLATION property=%s replay=%s obligation=%s (function left the verifiable subset; failing input found by the bounded native stand-in)' % (prop, path, po.name))
         print('UNDECIDED property=%s function=%s outside-subset: %s' % (prop, lab, det.splitlines()[0][:300]))
     for o in unknown:
         print('UNDECIDED property=%s obligation=%s solver-unknown: %s' % (prop, o.name, (o.reason or '')[:120]))
@@ -245,7 +290,7 @@ def main(argv):
         for m in ledger_missing[:20]:
             print('CHECKER-ERROR property=%s ledger obligation no longer generated: %s' % (prop, m))
         return 3
-    if res.unsupported or unknown or bounded_fail:
+    if res.unsupported or unknown or bounded_fail or needs_contract:
         return 2
     return 0
 
@@ -271,6 +316,10 @@ def check_ledger(prop, res):
         times = {}
         for o in res.obligs:
             times[o.name] = round(max(times.get(o.name, 0.0), o.ms), 1)
+        fields = set()
+        for o in res.obligs:
+            fields |= set(o.meta.get('fields') or ())
+        times['__fields__'] = sorted(fields)
         data[prop] = times
         with open(p, 'w') as f:
             json.dump(data, f, indent=0, sort_keys=True)
@@ -283,7 +332,7 @@ def check_ledger(prop, res):
     if want is None:
         return []
     have = set(names)
-    return [n for n in want if n not in have]
+    return [n for n in want if n not in have and not n.startswith('__')]
 
 
 def write_evidence(prop, tier, seed, res, wall, violations=0, known_seen=(), error=None):
